@@ -58,6 +58,9 @@ def build_cmd(spec):
         return led.QueryGearType(a)
     if k == "dtquery8":
         return colour.QueryColourStatus(a)
+    if k == "edt":
+        # an ENABLE DEVICE TYPE the caller's own sequence yields (for a device type no command of the pools uses)
+        return g.EnableDeviceType(100 + a)
     if k == "q24":
         return d.QueryNumberOfInstances(address.DeviceShort(a))
     if k == "q24yn":
